@@ -551,7 +551,9 @@ def mode_ops(ctr=False):
 
     def dec_ref(x, c):
         if x.encs:
-            x.call(c, "dec", [{"ref": x.rng.choice(x.encs)}], tag="dec_ref")
+            # an OLDER ciphertext more often than the latest one (dec must not lean on the last enc)
+            pick = x.rng.choice(x.encs[:-1]) if (len(x.encs) > 1 and x.rng.random() < 0.6) else x.rng.choice(x.encs)
+            x.call(c, "dec", [{"ref": pick}], tag="dec_ref")
         else:
             x.call(c, "dec", [B(_aligned(x.rng, x.info["bb"], 2))], tag="dec_ref")
     ops["dec_ref"] = (CHK, dec_ref)
